@@ -33,7 +33,8 @@ PROFILE = gen.profile(
     w_stmt=dict(raise_=0.15, orphan=0.8),
     w_leaf=dict(again=2.0, err=0.15, junk=0.05, lazy=0.4, none=1.0, const=1.2),
     w_struct=dict(leaf=3, tuple=3, list=4, dict=1.5),
-    lazy_modes=["ok", "ok", "raise"],
+    lazy_modes=["ok", "sync", "sync", "raise"],
+    p_ctx_sync=0.15,
     p_try_raise=0.3,
     kinds=3,
 )
